@@ -97,3 +97,4 @@ import Tie.Binders
 #print axioms Tie.excerpt_spec -- module Tie.Excerpt
 #print axioms Tie.metaTable_grouping -- module Tie.MetaTable
 #print axioms Tie.binders_agree -- module Tie.Binders
+#print axioms Tie.names_flags_conservative -- module Tie.Binders
